@@ -310,6 +310,38 @@ fn eval_cli(c: &CliCase, scratch: &Scratch) -> (Vec<Viol>, bool) {
     (viols, remove.len() >= 2)
 }
 
+/// Marginalization through the binary on values that are not whole numbers, read back from npy
+/// output (every bit of the sums): tiny fractions and near-integers must come through untouched.
+fn eval_cli_values(shape: &[usize], list: &[usize], family: &str, scratch: &Scratch) -> Option<Viol> {
+    let x = match family {
+        "fractions" => RefArray::from_fn(shape, |f, _| (f as f64 + 1.0) / 1024.0 / 1048576.0),
+        "near-integers" => RefArray::from_fn(shape, |f, _| (f % 4) as f64 + if f % 3 == 0 { 2.0f64.powi(-31) } else { -(2.0f64.powi(-33)) }),
+        _ => RefArray::from_fn(shape, |f, _| ((f % 7) as f64 + 1.0) / 32.0 / (1u64 << 32) as f64),
+    };
+    let input = text_of(&x);
+    let arg = join_usizes(list, ",");
+    let expect = x.marginalize(list);
+    let o = run_sfs(&["view", "-m", &arg, "-O", "npy"], Stdin::Bytes(input.as_bytes()), scratch);
+    let got: Result<RefArray, String> = if !o.ok() {
+        Err(format!("{} {}", o.status_str(), o.stderr_str().trim()))
+    } else {
+        crate::npyref::strict_parse_header(&o.stdout).map(|p| RefArray { shape: p.shape.clone(), data: o.stdout[p.data_offset..].chunks_exact(8).map(|c| f64::from_le_bytes(c.try_into().unwrap())).collect() })
+    };
+    // the same at 17 decimals of text
+    let t = run_sfs(&["view", "-m", &arg, "--precision", "17"], Stdin::Bytes(input.as_bytes()), scratch);
+    let got_text = parse_out(&t);
+    let ok_npy = matches!(&got, Ok(g) if *g == expect);
+    let ok_text = matches!(&got_text, Ok(g) if g.shape == expect.shape && g.data.iter().zip(&expect.data).all(|(a, b)| (a - b).abs() <= 0.6e-17 + 1e-15 * b.abs()));
+    if ok_npy && ok_text {
+        return None;
+    }
+    Some((
+        format!("C04|cli|-m-wrong|{family}"),
+        format!("view -m {arg} on shape {shape:?} with {family} values: npy {:?}, text at 17 decimals {:?}, expected {:?}", got.map(|g| g.data), got_text.map(|g| g.data), expect.data),
+        J::obj([("kind", J::s("c04-cli-values")), ("shape", J::usizes(shape)), ("list", J::usizes(list)), ("family", J::s(family))]),
+    ))
+}
+
 pub fn run(tier: Tier) -> i32 {
     let mut rep = Report::new("C04", tier, "exploration");
     rep.rule = "L1: every shape in the bound x every ordered list of distinct axes of size 1..d-1, on label spectra whose sums identify their summands (bit labels 2^i for <=52 cells; thorough adds three integer labelings summed exactly); joint and one-at-a-time removal compared bit-exactly with the reference; error clause on every list of length 0..d+1 over axes 0..d. L2: `sfs view -m/-M` on a shape grid. Non-trivial = >=2 removed axes or unequal axis lengths.".into();
@@ -440,6 +472,54 @@ pub fn run(tier: Tier) -> i32 {
             evaluations: n,
             nontrivial: n,
             note: "3 shapes x entries scale*(i+1)/7 + 0.1 i for scale in {1e6, 1e12, 1e18, 1e150} x every ordered axis list: finite, within 1e-12 relative of the reference".into(),
+            exhaustive: true,
+            extra: vec![],
+        });
+    }
+
+    // values that are not counts: infinite and NaN entries, entries that cancel to a total of zero, an
+    // all-zero spectrum, tiny fractions and near-integers (sums are plain sums: no rescaling by the
+    // total, no compensation term that an infinity poisons, no snapping to whole numbers)
+    {
+        let mut n = 0u64;
+        let families: Vec<(&str, Box<dyn Fn(usize) -> f64 + Sync>)> = vec![
+            ("one-infinity", Box::new(|f| if f == 1 { f64::INFINITY } else { (f % 5) as f64 + 1.0 })),
+            ("infinities", Box::new(|f| if f % 4 == 1 { f64::INFINITY } else { (f % 5) as f64 })),
+            ("opposite-infinities", Box::new(|f| if f == 0 { f64::INFINITY } else if f == 7 { f64::NEG_INFINITY } else { 2.0 })),
+            ("one-nan", Box::new(|f| if f == 2 { f64::NAN } else { (f % 3) as f64 })),
+            ("cancelling", Box::new(|f| if f % 2 == 0 { (f / 2 + 1) as f64 } else { -((f / 2 + 1) as f64) })),
+            ("all-zero", Box::new(|_| 0.0)),
+            ("fractions", Box::new(|f| (f as f64 + 1.0) / 1024.0 / 1048576.0)),
+            ("near-integers", Box::new(|f| (f % 4) as f64 + if f % 3 == 0 { 2.0f64.powi(-31) } else { -2.0f64.powi(-33) })),
+            ("overflowing", Box::new(|f| if f % 2 == 0 { 1.5e308 } else { 1e308 })),
+        ];
+        for sh in [vec![3usize, 4], vec![4, 2], vec![3, 4, 2], vec![2, 2, 3, 2]] {
+            for (name, gen) in &families {
+                let x = RefArray::from_fn(&sh, |f, _| gen(f));
+                let scs = scs_from_ref(&x);
+                for list in ordered_lists(sh.len(), 1, sh.len() - 1) {
+                    n += 1;
+                    let expect = x.marginalize(&list);
+                    let axes: Vec<Axis> = list.iter().map(|&a| Axis(a)).collect();
+                    // sums of a few exactly representable terms are exact whatever the order; with an
+                    // infinity or NaN among the terms the result is that infinity / NaN in any order
+                    let same = |g: &RefArray| g.shape == expect.shape && g.data.iter().zip(&expect.data).all(|(a, b)| (a.is_nan() && b.is_nan()) || a == b);
+                    match catch(|| scs.marginalize(&axes).map(|r| ref_from_spectrum(&r)).map_err(|e| e.to_string())) {
+                        Ok(Ok(g)) if same(&g) => {}
+                        other => rep.violation(
+                            format!("C04|lib|unusual-values-wrong|{name}"),
+                            format!("marginalize({list:?}) of shape {sh:?} with {name} entries {:?}: {:?}, expected {:?}", x.data, other.map(|r| r.map(|g| g.data)), expect.data),
+                            case_j(&sh, &list, &format!("unusual:{name}")),
+                        ),
+                    }
+                }
+            }
+        }
+        rep.part(Part {
+            name: "lib: infinite, NaN, cancelling, zero, tiny and near-integer values".into(),
+            evaluations: n,
+            nontrivial: n,
+            note: "4 shapes x 9 value families x every ordered axis list: the marginal is the plain sum (an infinity stays an infinity, opposite infinities and NaN give NaN, a zero total gives zeros, 2^-31 next to an integer survives, a sum beyond the largest finite number is an infinity)".into(),
             exhaustive: true,
             extra: vec![],
         });
@@ -642,6 +722,29 @@ pub fn run(tier: Tier) -> i32 {
         ("expected", J::s(text_of(&bit_labels(&[3, 2, 4]).marginalize(&[1])))),
     ]));
 
+    // fractional values through the binary
+    {
+        let mut vj: Vec<(Vec<usize>, Vec<usize>, &str)> = Vec::new();
+        for sh in [vec![3usize, 4], vec![2, 3, 2]] {
+            for list in ordered_lists(sh.len(), 1, sh.len() - 1) {
+                for family in ["fractions", "near-integers", "small"] {
+                    vj.push((sh.clone(), list.clone(), family));
+                }
+            }
+        }
+        let res = par_map(vj.len(), |i| eval_cli_values(&vj[i].0, &vj[i].1, vj[i].2, &scratch));
+        for v in res.into_iter().flatten() {
+            rep.violation(v.0, v.1, v.2);
+        }
+        rep.part(Part {
+            name: "cli: view -m on fractional values".into(),
+            evaluations: 2 * vj.len() as u64,
+            nontrivial: 2 * vj.len() as u64,
+            note: "shapes 3x4 and 2x3x2 x every ordered axis list x {multiples of 2^-30, integers +- 2^-31 / 2^-33, small dyadic fractions}: the npy output holds the exact sums to the bit, the text output at 17 decimals agrees".into(),
+            exhaustive: true,
+            extra: vec![],
+        });
+    }
     super::c04_create::run_create_relation(&mut rep, tier, &scratch);
 
     rep.assumptions = vec![
@@ -662,6 +765,10 @@ pub fn replay(case: &J) -> Option<Vec<String>> {
                 let (_, v2) = check_errors(&shape);
                 return Some(v.into_iter().chain(v2).map(|(k, w, _)| format!("{k} :: {w}")).collect());
             }
+            if lab.starts_with("unusual:") {
+                // (the value families live in closures of the run; no stand-alone replay)
+                return None;
+            }
             // beyond the small grid: exactly the recorded axis list on the recorded filling
             let axes = case.get("axes")?.as_usizes()?;
             let x = if lab == "scale977" {
@@ -679,6 +786,11 @@ pub fn replay(case: &J) -> Option<Vec<String>> {
                 Ok(Ok(g)) if g.shape == expect.shape && g.data.iter().zip(&expect.data).all(|(a, b)| (a - b).abs() <= 1e-12 * b.abs()) => vec![],
                 other => vec![format!("C04|lib|joint-wrong :: marginalize({axes:?}) of shape {shape:?} ({lab}): {:?}", other.map(|r| r.map(|g| g.shape)))],
             })
+        }
+        "c04-cli-values" => {
+            let scratch = Scratch::new("c04r");
+            let fam: &'static str = ["fractions", "near-integers", "small"].iter().copied().find(|f| Some(*f) == case.get("family").and_then(|x| x.as_str())).unwrap_or("small");
+            Some(eval_cli_values(&case.get("shape")?.as_usizes()?, &case.get("list")?.as_usizes()?, fam, &scratch).into_iter().map(|(k, w, _)| format!("{k} :: {w}")).collect())
         }
         "c04-cli" => {
             let scratch = Scratch::new("c04r");
